@@ -1,5 +1,7 @@
 use vstd::prelude::*;
 use vstd::arithmetic::power2::*;
+use vstd::imap::*;
+use vstd::iset::*;
 verus! {
 global size_of usize == 8;
 
@@ -203,6 +205,44 @@ impl HashSet {
 // hll/array4.rs, array6.rs, array8.rs: accessors on the real bodies
 // =====================================================================================================================
 #[verifier::external_body] struct AuxMap { _p: u8 }
+// ---- refinement of the abstract register model of unit hll_sketch (`lg`, `regs`, `wf2` of Array4 and `lg`, `regs`, `wf` of Array6 / Array8
+// are uninterpreted there): definitions VERBATIM from contracts/hll_array4.rs / hll_array6.rs / hll_array8.rs, where new / update are
+// verified against them.  set_hip_accum touches none of the fields they read.
+impl AuxMap {
+    pub uninterp spec fn view(&self) -> IMap<u32, u8>;
+    pub uninterp spec fn lgk(&self) -> u8;
+    pub uninterp spec fn inv(&self) -> bool;
+    pub open spec fn awf(&self) -> bool {
+        &&& self.inv()
+        &&& forall|s: u32| self.view().dom().contains(s) ==> s < pow2(self.lgk() as nat) && 1 <= #[trigger] self.view()[s] <= 63
+    }
+}
+spec fn nib(bytes: Seq<u8>, i: int) -> u8 { if i % 2 == 0 { bytes[i / 2] & 15 } else { bytes[i / 2] >> 4 } }
+spec fn preg(cur_min: u8, bytes: Seq<u8>, aux: IMap<u32, u8>, i: int) -> int {
+    let n = nib(bytes, i);
+    if n < 15 { cur_min as int + n as int } else { aux[i as u32] as int }
+}
+spec fn pwf(lg: u8, cur_min: u8, bytes: Seq<u8>, aux: IMap<u32, u8>) -> bool {
+    let k = pow2(lg as nat) as int;
+    &&& 4 <= lg <= 21
+    &&& bytes.len() * 2 == k
+    &&& cur_min <= 63
+    &&& forall|i: int| 0 <= i < k ==> (nib(bytes, i) == 15 <==> #[trigger] aux.dom().contains(i as u32))
+    &&& forall|s: u32| #[trigger] aux.dom().contains(s) ==> s < k && cur_min + 15 <= aux[s] <= 63
+    &&& forall|i: int| 0 <= i < k ==> #[trigger] preg(cur_min, bytes, aux, i) <= 63
+}
+spec fn pcnt(cur_min: u8, bytes: Seq<u8>, aux: IMap<u32, u8>, v: int, n: int) -> int decreases n {
+    if n <= 0 { 0 } else { pcnt(cur_min, bytes, aux, v, n - 1) + (if preg(cur_min, bytes, aux, n - 1) == v { 1int } else { 0int }) }
+}
+spec fn le16(b0: u8, b1: u8) -> u16 { (b0 as u16) | ((b1 as u16) << 8) }
+spec fn get6(w: u16, sh: u16) -> u8 { ((w >> sh) & 0x3f) as u8 }
+spec fn reg6(bytes: Seq<u8>, i: int) -> u8 {
+    let sb = 6 * i;
+    get6(le16(bytes[sb / 8], bytes[sb / 8 + 1]), (sb % 8) as u16)
+}
+spec fn cnt0(r: Seq<u8>, n: int) -> int decreases n {
+    if n <= 0 { 0 } else { cnt0(r, n - 1) + (if r[n - 1] == 0 { 1int } else { 0int }) }
+}
 
 struct Array4 {
     lg_config_k: u8,
@@ -214,6 +254,24 @@ struct Array4 {
 }
 
 impl Array4 {
+    spec fn k(&self) -> int { pow2(self.lg_config_k as nat) as int }
+    // (unit hll_union: `hip`, `ooo` are uninterpreted there)
+    spec fn hip(&self) -> f64 { self.estimator.hip_accum }
+    spec fn ooo(&self) -> bool { self.estimator.out_of_order }
+    spec fn auxv(&self) -> IMap<u32, u8> { if self.aux_map is Some { self.aux_map->0.view() } else { IMap::empty() } }
+    spec fn reg(&self, i: int) -> int { preg(self.cur_min, self.bytes@, self.auxv(), i) }
+    spec fn lg(&self) -> u8 { self.lg_config_k }
+    spec fn regs(&self) -> Seq<u8> { Seq::new(self.k() as nat, |i: int| self.reg(i) as u8) }
+    spec fn wf(&self) -> bool {
+        &&& pwf(self.lg_config_k, self.cur_min, self.bytes@, self.auxv())
+        &&& (self.aux_map matches Some(m) ==> m.awf() && m.lgk() == self.lg_config_k)
+    }
+    spec fn cnt_at(&self, v: int, n: int) -> int { pcnt(self.cur_min, self.bytes@, self.auxv(), v, n) }
+    spec fn wf2(&self) -> bool {
+        &&& self.wf()
+        &&& self.num_at_cur_min == self.cnt_at(self.cur_min as int, self.k())
+        &&& self.num_at_cur_min > 0
+    }
     uninterp spec fn ser_pre(&self) -> bool;
     uninterp spec fn image(&self, lg: u8, b: Seq<u8>) -> bool;
     spec fn lg_ok(&self) -> bool { 4 <= self.lg_config_k <= 21 }
@@ -294,6 +352,21 @@ struct Array6 {
 }
 
 impl Array6 {
+    spec fn k(&self) -> int { pow2(self.lg_config_k as nat) as int }
+    // (unit hll_union: `hip`, `ooo` are uninterpreted there)
+    spec fn hip(&self) -> f64 { self.estimator.hip_accum }
+    spec fn ooo(&self) -> bool { self.estimator.out_of_order }
+    spec fn lg(&self) -> u8 { self.lg_config_k }
+    spec fn shape(&self) -> bool {
+        4 <= self.lg_config_k <= 21 && self.bytes@.len() == (self.k() * 3) / 4 + 1
+    }
+    spec fn regs(&self) -> Seq<u8> {
+        Seq::new(self.k() as nat, |i: int| reg6(self.bytes@, i))
+    }
+    spec fn wf(&self) -> bool {
+        &&& self.shape()
+        &&& self.num_zeros == cnt0(self.regs(), self.k())
+    }
     uninterp spec fn ser_pre(&self) -> bool;
     uninterp spec fn image(&self, lg: u8, b: Seq<u8>) -> bool;
     spec fn lg_ok(&self) -> bool { 4 <= self.lg_config_k <= 21 }
@@ -365,6 +438,19 @@ struct Array8 {
 }
 
 impl Array8 {
+    spec fn k(&self) -> int { pow2(self.lg_config_k as nat) as int }
+    // (unit hll_union: `hip`, `ooo` are uninterpreted there)
+    spec fn hip(&self) -> f64 { self.estimator.hip_accum }
+    spec fn ooo(&self) -> bool { self.estimator.out_of_order }
+    spec fn lg(&self) -> u8 { self.lg_config_k }
+    spec fn shape(&self) -> bool {
+        4 <= self.lg_config_k <= 21 && self.bytes@.len() == self.k()
+    }
+    spec fn regs(&self) -> Seq<u8> { self.bytes@ }
+    spec fn wf(&self) -> bool {
+        &&& self.shape()
+        &&& self.num_zeros == cnt0(self.regs(), self.k())
+    }
     uninterp spec fn ser_pre(&self) -> bool;
     uninterp spec fn image(&self, lg: u8, b: Seq<u8>) -> bool;
     spec fn lg_ok(&self) -> bool { 4 <= self.lg_config_k <= 21 }
